@@ -613,28 +613,26 @@ func (c *FC) ledgerSites() []ssa.Instruction {
 func (c *FC) expandSpliced(sites []ssa.Instruction, inner func(h *ssa.Function) []ssa.Instruction) []ssa.Instruction {
 	var out []ssa.Instruction
 	seen := map[ssa.Instruction]bool{}
-	add := func(in ssa.Instruction) {
-		if !seen[in] {
-			seen[in] = true
-			out = append(out, in)
-		}
-	}
-	for _, in := range sites {
-		expanded := false
-		if call, ok := in.(*ssa.Call); ok {
-			for _, sp := range c.p.splices(c.fn) {
-				if sp.Call == call {
-					for _, hin := range inner(sp.H) {
-						add(hin)
+	all := c.p.splices(c.fn)
+	var expand func(sites []ssa.Instruction, ctx *spliceSite, depth int)
+	expand = func(sites []ssa.Instruction, ctx *spliceSite, depth int) {
+		for _, in := range sites {
+			expanded := false
+			if call, ok := in.(*ssa.Call); ok && depth < 4 {
+				for _, sp := range all {
+					if sp.Call == call && sp.parent == ctx {
+						expand(inner(sp.H), sp, depth+1)
+						expanded = true
 					}
-					expanded = true
 				}
 			}
-		}
-		if !expanded {
-			add(in)
+			if !expanded && !seen[in] {
+				seen[in] = true
+				out = append(out, in)
+			}
 		}
 	}
+	expand(sites, nil, 0)
 	return out
 }
 
